@@ -90,7 +90,9 @@ func CheckC01(run *evid.Run) {
 	run.Assumptions = []string{"entry hashes are reproducible for equal (seed, history) so replay twins are comparable hash by hash", "the harness block store behaves like a correct IPFS DAG service"}
 	opts := hx.GenOpts{MaxSteps: maxSteps, Orders: []string{"default", "hash", "hash", "revhash"}}
 	parallel(nh, func(i int) {
-		h := hx.Gen(run.Seed, i, opts)
+		o2 := opts
+		o2.Failures = i%2 == 1 // every other history also contains refused operations and forks
+		h := hx.Gen(run.Seed, i, o2)
 		table := map[string]*stateFn{}
 		var tr histTrack
 		for t := 0; t < twins; t++ {
@@ -127,6 +129,9 @@ func c01Twin(run *evid.Run, h *hx.History, twin int, table map[string]*stateFn, 
 		keys := o.Set.Keys()
 		K := model.DigestKeys(keys)
 		tot := totalOrder(h.Order, o.Set)
+		if o.NilEntries > 0 {
+			run.Violate("C01/nil-entry", det("shape", h.Shape), wit(where), "the log hands out %d nil entries at [%s]", o.NilEntries, where)
+		}
 		sf := &stateFn{H: model.DigestKeys(model.SortedCopy(o.Heads)), V: model.DigestSeq(o.Values), J: model.DigestSeq(o.JSONHeads), total: tot, where: where}
 		if prev, ok := table[K]; ok {
 			if prev.H != sf.H {
@@ -180,6 +185,21 @@ func c01Twin(run *evid.Run, h *hx.History, twin int, table map[string]*stateFn, 
 			if d := obsEqual(before, after); d != "" {
 				run.Violate("C01/noop-changed", det("op", s.Op), wit(where), "%s changed the log: %s", s.Op, d)
 			}
+		case "denyappend", "joinrejected":
+			// a refused operation must change nothing (then or later: the state-function table keeps watching)
+			before := hx.Observe(x.Logs[s.R])
+			res := x.Do(i)
+			after := observe(s.R, where)
+			run.Count("refused_operations", 1)
+			if res.Err != nil {
+				if d := obsEqual(before, after); d != "" {
+					run.Violate("C01/refused-op-changed", det("op", s.Op), wit(where), "%s returned an error but changed the log: %s", s.Op, d)
+				}
+			}
+		case "fork":
+			x.Do(i)
+			run.Count("forks", 1)
+			observe(s.R, where)
 		default:
 			res := x.Do(i)
 			if res.Err != nil {
@@ -327,12 +347,17 @@ func CheckC02(run *evid.Run) {
 	run.Rule = "every prefix state of seeded histories (8 shapes incl. 'overlap': merges of already-merged logs, into ancestors/descendants, partially overlapping forks, three-way merges where one side's head is interior on the other); after each step heads are recomputed by the model from GetEntries(); non-trivial iff the history reached a state with >=2 heads and a merge added entries; distinct = final DAG shape digest"
 	opts := hx.GenOpts{MaxSteps: pick(run.Tier, 40, 80), Orders: []string{"default", "hash"}}
 	parallel(nh, func(i int) {
-		h := hx.Gen(run.Seed, i, opts)
+		o2 := opts
+		o2.Failures = i%2 == 1
+		h := hx.Gen(run.Seed, i, o2)
 		x := hx.NewExec(h)
 		var tr histTrack
 		for k, s := range h.Steps {
 			before := x.Logs[s.R].Len()
 			res := x.Do(k)
+			if s.ExpectsError() {
+				run.Count("refused_operations", 1)
+			}
 			o := hx.Observe(x.Logs[s.R])
 			tr.seeObs(o)
 			if s.Op == "join" && o.Len > before {
@@ -361,6 +386,9 @@ func CheckC02(run *evid.Run) {
 
 func c02Obs(run *evid.Run, h *hx.History, o *hx.Obs, where string) {
 	wit := func() map[string]any { m := histSample(h); m["at"] = where; return m }
+	if o.NilEntries > 0 {
+		run.Violate("C02/nil-entry", det("shape", h.Shape), wit(), "the log hands out %d nil entries at %s", o.NilEntries, where)
+	}
 	want := model.Heads(o.Set)
 	if !model.EqualAsSets(o.Heads, want) {
 		run.Violate("C02/heads-exact", det("shape", h.Shape), wit(), "Heads()=%v but unreferenced entries=%v at %s", hx.SortedShorts(o.Heads), hx.Shorts(want), where)
@@ -450,7 +478,9 @@ func CheckC03(run *evid.Run) {
 	parallel(nh+nshape, func(i int) {
 		var h *hx.History
 		if i < nh {
-			h = hx.Gen(run.Seed, i, opts)
+			o2 := opts
+			o2.Failures = i%2 == 1
+			h = hx.Gen(run.Seed, i, o2)
 		} else {
 			h = genShapeDAG(run.Seed, i-nh, run.Tier)
 		}
